@@ -242,6 +242,13 @@ func (g *luaGen) annotation() string {
 	case 17:
 		// table constructors with keys (definition / hover on a key of a constructor)
 		return g.name() + " = { " + g.name() + " = " + g.atom() + ", " + g.name() + " = { " + g.name() + " = 1 } }\nlocal lt = { kk = " + g.expr() + ", " + g.name() + " = nil }\nprint(lt.kk)"
+	case 19:
+		// generic methods in the fluent style: the generic parameter is the receiver, a later or
+		// the only parameter; called with a colon and with a dot, results used further on
+		c := "GBox" + fmt.Sprint(g.r.Intn(3))
+		return "---@class " + c + "\nlocal " + c + " = {}\n---@generic T\n---@param self T\n---@param n string\n---@return T\nfunction " + c + ":set(n) return self end\n" +
+			"---@generic T\n---@param a number\n---@param b T\n---@return T\nfunction " + c + ".pick(a, b) return b end\n" +
+			"local gb1 = " + c + ":set(\"a\")\nlocal gb2 = gb1:set(\"b\"):set(\"c\")\nlocal gb3 = " + c + ".pick(1, gb2)\nlocal gb4 = " + c + ".set(" + c + ", \"d\")\nlocal gb5 = " + c + ":pick(gb1)\nprint(gb1, gb2.x, gb3, gb4, gb5)"
 	default:
 		return "---@type table<" + g.annType() + ", " + g.annType() + ">[]\nlocal " + g.name() + " = {}\nprint(" + g.name() + "[1]." + g.name() + ")"
 	}
